@@ -501,7 +501,12 @@ func (d *syDrv) remoteSnapAt(at int) {
 	for i := 1; i <= idx; i++ {
 		d.applyDirect(src, i)
 	}
+	// (Backup refuses while the store's backup goroutine is not yet waiting for work)
 	bi := src.Backup(term, uint64(idx))
+	for k := 0; k < 100 && bi == nil; k++ {
+		time.Sleep(10 * time.Millisecond)
+		bi = src.Backup(term, uint64(idx))
+	}
 	if bi == nil {
 		src.Close()
 		return
@@ -791,6 +796,11 @@ func (d *syDrv) simSequence(steps []graph.Edge, modelN int) error {
 			j := ckAtoi(e.Args[0])
 			if d.mreal[j] > d.synced() {
 				d.remoteSnapAt(d.mreal[j])
+				if d.synced() < d.mreal[j] {
+					// the snapshot could not be produced or applied: what follows in the behaviour
+					// presupposes it; end the behaviour here (nothing to judge)
+					return nil
+				}
 			}
 		case "ApplyCheck", "ApplyEffect", "ApplySynced", "ApplySnapEntry", "CancelPrefix", "Next":
 			// the receiver's apply loop runs by itself
